@@ -674,6 +674,34 @@ def rules(rep, m):
             if c["kind"] == "CallExpr" and callee_ref(c) == "cmi_memcpy":
                 a_ = [render(z) for z in kids(c)[1:]]
                 copies[a_[0]] = (a_[1], cx.canon(kids(c)[3]))
+        # a duplicating helper: X = dup(S, N) where dup allocates N elements, copies N elements from S and returns the block
+        for l, r, k, n_ in inv.stores(f):
+            rr = strip(r, casts=True) if r is not None else None
+            if rr is None or rr["kind"] != "CallExpr" or not callee_ref(rr):
+                continue
+            hf = m.funcs.get(m.resolve(f.unit, callee_ref(rr)))
+            if hf is None or hf.body is None or len(hf.params) != len(kids(rr)) - 1:
+                continue
+            hx = FuncCtx(m, hf)
+            hal = [(hx.canon(l2), hx.canon(kids(strip(r2, casts=True))[1])) for l2, r2, k2, n2 in
+                   [(d_, kids(d_)[0], "=", d_) for d_ in walk(hf.body) if d_["kind"] == "VarDecl" and kids(d_)]
+                   if strip(r2, casts=True)["kind"] == "CallExpr" and callee_ref(strip(r2, casts=True)) in ("cmi_calloc", "cmi_malloc")]
+            hal = [(d_["name"], hx.canon(kids(strip(kids(d_)[0], casts=True))[1])) for d_ in walk(hf.body)
+                   if d_["kind"] == "VarDecl" and kids(d_) and strip(kids(d_)[0], casts=True)["kind"] == "CallExpr"
+                   and callee_ref(strip(kids(d_)[0], casts=True)) in ("cmi_calloc", "cmi_malloc")]
+            hcp = [(render(strip(kids(c2)[1], casts=True)), hx.canon(kids(c2)[2]), hx.canon(kids(c2)[3])) for c2 in walk(hf.body)
+                   if c2["kind"] == "CallExpr" and callee_ref(c2) == "cmi_memcpy"]
+            hret = [render(strip(kids(y)[0], casts=True)) for y in walk(hf.body) if y["kind"] == "ReturnStmt" and kids(y)]
+            pnames = [p_["name"] for p_ in hf.params]
+            if len(hal) == 1 and len(hcp) == 1 and hret == [hal[0][0]] and hcp[0][0] == hal[0][0] and hal[0][1] in pnames \
+                    and hcp[0][1] in pnames:
+                amap = {pn: cx.canon(a_) for pn, a_ in zip(pnames, kids(rr)[1:])}
+                amap_r = {pn: render(strip(a_, casts=True)) for pn, a_ in zip(pnames, kids(rr)[1:])}
+                allocs[cx.canon(l)] = amap[hal[0][1]]
+                cnt_txt = hcp[0][2]
+                for pn in pnames:
+                    cnt_txt = re.sub(r"(?<![\w>.])%s(?!\w)" % re.escape(pn), amap[pn], cnt_txt)
+                copies[render(strip(l, casts=True))] = (amap_r[hcp[0][1]], cnt_txt)
         for arr, cnt in allocs.items():
             short = arr.split("->")[-1]
             cp = [v for k_, v in copies.items() if k_.endswith("->" + short)]
